@@ -645,8 +645,35 @@ impl Relations {
             .map(|e| e.wrap_and_sort())
             .collect::<Vec<_>>();
         entries.sort();
+        // Substitution variables are kept, sorted, after the entries
+        let mut substvars = self.substvars().collect::<Vec<_>>();
+        substvars.sort();
         // TODO: preserve comments
-        Self::from(entries)
+        let mut builder = GreenNodeBuilder::new();
+        builder.start_node(ROOT.into());
+        let mut first = true;
+        for entry in entries {
+            if !first {
+                builder.token(COMMA.into(), ",");
+                builder.token(WHITESPACE.into(), " ");
+            }
+            first = false;
+            inject(&mut builder, entry.0);
+        }
+        for substvar in substvars {
+            if !first {
+                builder.token(COMMA.into(), ",");
+                builder.token(WHITESPACE.into(), " ");
+            }
+            first = false;
+            builder.start_node(SUBSTVAR.into());
+            for (kind, text) in crate::relations::lex(&substvar) {
+                builder.token(kind.into(), text.as_str());
+            }
+            builder.finish_node();
+        }
+        builder.finish_node();
+        Relations(SyntaxNode::new_root_mut(builder.finish()))
     }
 
     /// Iterate over the entries in this relations field
